@@ -505,18 +505,34 @@ func TestC01_BridgeConservation(t *testing.T) {
 					t.Fatalf("addr: %v", err)
 				}
 				site := rapid.SampledFrom(bridge.Sites).Draw(t, "site")
-				b.Arm(site, rapid.IntRange(1, 2).Draw(t, "kth"))
+				asPanic := rapid.IntRange(0, 2).Draw(t, "faultIsPanic") == 0
+				if asPanic {
+					b.ArmPanic(site, rapid.IntRange(1, 2).Draw(t, "kth"))
+				} else {
+					b.Arm(site, rapid.IntRange(1, 2).Draw(t, "kth"))
+				}
 				b.ResetFired()
 				before := project.All(c, []string{"skyway", "bank"})
 				var opErr error
 				what := "build"
 				batches, _ := k.GetOutgoingTxBatches(b.Ctx())
-				if len(batches) > 0 && rapid.Bool().Draw(t, "cancel") {
-					bt := batches[rapid.IntRange(0, len(batches)-1).Draw(t, "batch")]
-					what = fmt.Sprintf("cancel(batch %d)", bt.BatchNonce)
-					opErr = k.CancelOutgoingTXBatch(b.Ctx(), bt.TokenContract, bt.BatchNonce)
-				} else {
-					_, opErr = k.BuildOutgoingTXBatch(b.Ctx(), c01Chain, *contract, 100)
+				func() {
+					// the end blocker recovers a panic of its steps and carries on: for the caller that is a failed operation
+					defer func() {
+						if r := recover(); r != nil {
+							opErr = fmt.Errorf("panic: %v", r)
+						}
+					}()
+					if len(batches) > 0 && rapid.Bool().Draw(t, "cancel") {
+						bt := batches[rapid.IntRange(0, len(batches)-1).Draw(t, "batch")]
+						what = fmt.Sprintf("cancel(batch %d)", bt.BatchNonce)
+						opErr = k.CancelOutgoingTXBatch(b.Ctx(), bt.TokenContract, bt.BatchNonce)
+					} else {
+						_, opErr = k.BuildOutgoingTXBatch(b.Ctx(), c01Chain, *contract, 100)
+					}
+				}()
+				if asPanic {
+					what += " [panic fault]"
 				}
 				b.Disarm()
 				log = append(log, fmt.Sprintf("%s with fault at %s -> err=%v fired=%v", what, site, opErr != nil, b.Fired))
@@ -565,8 +581,13 @@ func TestC01_BridgeConservation(t *testing.T) {
 			"armFault": func(t *rapid.T) {
 				site := rapid.SampledFrom(bridge.Sites).Draw(t, "site")
 				kk := rapid.IntRange(1, 3).Draw(t, "kth")
-				b.Arm(site, kk)
-				log = append(log, fmt.Sprintf("arm(%s,%d)", site, kk))
+				if rapid.IntRange(0, 2).Draw(t, "faultIsPanic") == 0 {
+					b.ArmPanic(site, kk)
+					log = append(log, fmt.Sprintf("armPanic(%s,%d)", site, kk))
+				} else {
+					b.Arm(site, kk)
+					log = append(log, fmt.Sprintf("arm(%s,%d)", site, kk))
+				}
 			},
 		})
 		// drain: two more end-blocks without faults so that half-done housekeeping shows up
